@@ -48,7 +48,7 @@ class Recorder(BaseWriter):
 def mkpoint(v):
     """JSON op arguments use lists; ['P', x, y, z] means a Point object."""
     if isinstance(v, list) and v and v[0] == "P":
-        return Point(*v[1:])
+        return Point(*[mkpoint(x) for x in v[1:]])
     if isinstance(v, list) and len(v) == 2 and v[0] == "np64":
         import numpy as np
         return np.float64(v[1])
